@@ -145,6 +145,15 @@ def scenario(ctx, j):
                 clock.sched(d[2], t.obj)
                 t.sched.append((base + d[2], world.now, next(seq)))
             s.foreign('sched f1 again', again)
+        probes = []
+        if j.get('probe'):
+            # the main thread looks at its clock after an AppClock task is over (returned, raised): a task it schedules
+            # now on SystemClock with delay x is due at now + x, i.e. the time it reads is the physical present
+            def probe(world):
+                if not any(t_.wakes for t_ in tasks):
+                    raise PathAbort('probe after the first wake-up only')
+                probes.append((main.current_tt._seconds, world.now))
+            s.foreign('main thread reads its time', probe)
         try:
             try:
                 s.run(clock)
@@ -157,6 +166,10 @@ def scenario(ctx, j):
             if w.truncated:
                 raise PathAbort('event budget')      # bounded: longer runs are outside this path
             zero_jitter = not j.get('jitter', False)
+            for seen, phys in probes:
+                ctx.prove(R(seen) == R(phys), 'after an AppClock task is over the main thread\'s logical time is stale: '
+                          'a task it schedules now with SystemClock.sched(x) is due before now + x', data('main-time'))
+                ctx.note('probe')
             for t in tasks:
                 nsched = len(t.sched)
                 if nsched == 0:
@@ -302,6 +315,25 @@ def replay(rec):
     main = _m.main
     j = rec['job']
     kind = j['clock']
+    if rec.get('sub') == 'main-time':
+        import logging
+        woke = []
+
+        def bad():
+            raise RuntimeError('task failure (logged by the clock)')
+        logging.disable(logging.CRITICAL)
+        clk.AppClock.sched(0.05, bad if j.get('raises') else (lambda: None))
+        time.sleep(0.6)
+        logging.disable(logging.NOTSET)
+        t_call = time.time()
+        clk.SystemClock.sched(0.5, lambda: woke.append(time.time()))
+        time.sleep(1.0)
+        if not woke:
+            return 'the task scheduled from the main thread was never awakened'
+        if woke[0] - t_call < 0.4:
+            return f'SystemClock.sched(0.5) from the main thread, 0.55 s after an AppClock task ' \
+                   f'{"raised" if j.get("raises") else "returned"}: awakened {woke[0] - t_call:.3f} s after the call'
+        return None
     vals = rec.get('values', {})
     trace = rec.get('trace', [])
     g = lambda n, dflt: float(vals[n]) if vals.get(n) is not None else dflt      # noqa
@@ -533,9 +565,10 @@ def main(tier, seed):
                 jobs.append(dict(clock=kind, third=4, resched=1, raises=0, jitter=False, tempo=ta, tempo2=tb))
         if tier == 'thorough':
             jobs.append(dict(clock=kind, third=1, resched=1, raises=2, jitter=True, max_events=30))
+    jobs += [dict(clock='app', third=0, resched=0, raises=rz, jitter=False, probe=1) for rz in (0, 1, 3)]
     for r in run_jobs('vf.props.c08', 'job', jobs, 'rt'):
         chk.add('schedules', r)
-    chk.require_notes('schedules', ['sys', 'tempo', 'app', 'raised', 'rescheduled', 'cleared', 'tempo-changed'])
+    chk.require_notes('schedules', ['sys', 'tempo', 'app', 'raised', 'rescheduled', 'cleared', 'tempo-changed', 'probe'])
     chk.bounds = {'tasks': 3, 'foreign_actions': '2 sched + one of {none, clear, sched_abs, tempo change, etempo change, the same task scheduled again}',
                   'reschedules': 1, 'events_per_path': 22, 'clocks': 'SystemClock, one TempoClock (tempo from a grid), '
                   'AppClock, each alone', 'jitter': 'zero-jitter sub-model for the on-time obligations; arbitrary '
